@@ -365,7 +365,13 @@ func (w *World) decodeEmissions(from int) []*Emitted {
 	for i := len(w.decoded); i < len(w.N.Emissions); i++ {
 		e := w.N.Emissions[i]
 		em := &Emitted{E: e}
-		if e.Proto == "tcp" && e.Err != "" && len(e.Data) == 0 {
+		if e.Proto == "tcp" && (e.Err != "" && len(e.Data) == 0 || e.Err == "reset-while-blocked" || e.Err == "closed-while-blocked") {
+			// a write that failed before it took a byte - or that the connection's end cut short while it was
+			// blocked on a peer that did not read: the bytes that got out are the head of a message whose sender was
+			// told that the write failed (what it does next is judged; the torso is not a relayed message)
+			if len(e.Data) > 0 {
+				w.stat("probe:write-cut-short-by-the-end-of-a-stalled-connection")
+			}
 			em.skip = true
 			w.decoded = append(w.decoded, em)
 			continue
